@@ -438,7 +438,7 @@ def _run_driver_one(ctx, drv, sub, cases, timeout, extra, per_call_ms, env, mem=
     return fout, restarts, p.stderr
 
 
-def run_driver(ctx, sub, cases, *, race=False, timeout=1800, extra=None, per_call_ms=1500, env=None, jobs=None,
+def run_driver(ctx, sub, cases, *, race=False, timeout=1800, extra=None, per_call_ms=4000, env=None, jobs=None,
                mem=None, for_tlc=True):
     """Execute `cases` (list of JSON objects) with driver subcommand `sub`; returns observations in order.
     A call that does not return within per_call_ms is recorded by the driver as {"ev":"hang"} and
